@@ -32,6 +32,7 @@ CONSTANTS
                   \* other parent activity (result messages, supervision, submissions) may come between
     DevSoftNoReady, \* pinned code (F10, fixed): on_soft_timeout does not re-check that the job is unresolved
     DevShrinkSame, \* pinned code (F14, fixed): shrink() may pick a worker that is already being shrunk
+    HookPause,      \* TRUE: grow() / shrink() park in their user hook (on_grow / on_shrink) until HookReturn
     DevNoCreditLate \* pinned code: a READY for a job no longer cached is not credited to the worker
 
 EX_OK == 0
@@ -42,6 +43,7 @@ Val(o) == o[1]
 Min(a, b) == IF a < b THEN a ELSE b
 
 VARIABLES
+    hook,        \* "none" | "grow" | "shrink": a resize call is parked in its user hook (on_grow / on_shrink)
     pstate,      \* "RUN" | "CLOSE"
     nsub,        \* jobs submitted so far
     job,         \* [1..NJobs -> job record], meaningful for j <= nsub
@@ -62,9 +64,9 @@ VARIABLES
     raised,      \* Maintain raised RestartFreqExceeded
     act
 
-vars == <<pstate, nsub, job, pool, procs, nextpid, sem, rs, dirty, inq, outq, w,
+vars == <<hook, pstate, nsub, job, pool, procs, nextpid, sem, rs, dirty, inq, outq, w,
           sigs, now, ndup, supd, scand, raised, scanning, snap, act>>
-View == <<pstate, nsub, job, pool, procs, nextpid, sem, rs, dirty, inq, outq, w,
+View == <<hook, pstate, nsub, job, pool, procs, nextpid, sem, rs, dirty, inq, outq, w,
           sigs, now, ndup, supd, scand, raised, scanning, snap>>
 
 Jobs == 1..NJobs
@@ -84,6 +86,7 @@ NoWorker == [pc |-> "none", j |-> 0, nd |-> 0, ex |-> None, term |-> FALSE]
 NewProc(pid, idx) == [pid |-> pid, idx |-> idx, cnt |-> 0, ctrl |-> FALSE, jterm |-> FALSE]
 
 Init ==
+    /\ hook = "none"
     /\ pstate = "RUN" /\ nsub = 0
     /\ job = [j \in Jobs |-> NoJob]
     /\ pool = [i \in 1..Procs |-> NewProc(i, i - 1)]
@@ -118,7 +121,7 @@ SetJob(jr, out, oarg) ==
 (* ------------------------------------------------------------------------- *)
 (* user calls                                                                *)
 Submit(lim) ==
-    /\ pstate = "RUN" /\ nsub < NJobs
+    /\ hook = "none" /\ pstate = "RUN" /\ nsub < NJobs
     /\ IF PutLocks THEN sem[1] > 0 /\ sem' = <<sem[1] - 1, sem[2]>> ELSE UNCHANGED sem
     /\ LET j == nsub + 1
            s == IF lim[1] # 0 THEN lim[1] ELSE PoolSoft
@@ -128,23 +131,23 @@ Submit(lim) ==
                                                    !.incache = TRUE]]
           /\ inq' = Append(inq, j)
           /\ act' = [name |-> "Submit", j |-> j, soft |-> lim[1], hard |-> lim[2]]
-    /\ UNCHANGED <<pstate, pool, procs, nextpid, rs, dirty, outq, w, sigs, now, ndup, supd, scand, raised, scanning, snap>>
+    /\ UNCHANGED <<hook, pstate, pool, procs, nextpid, rs, dirty, outq, w, sigs, now, ndup, supd, scand, raised, scanning, snap>>
 
 SubmitRefused ==   \* apply_async on a closed pool returns None and touches nothing
-    /\ pstate # "RUN" /\ nsub < NJobs
+    /\ hook = "none" /\ pstate # "RUN" /\ nsub < NJobs
     /\ act' = [name |-> "SubmitRefused"]
-    /\ UNCHANGED <<pstate, nsub, job, pool, procs, nextpid, sem, rs, dirty, inq, outq, w,
+    /\ UNCHANGED <<hook, pstate, nsub, job, pool, procs, nextpid, sem, rs, dirty, inq, outq, w,
                    sigs, now, ndup, supd, scand, raised, scanning, snap>>
 
 Discard(j) ==
-    /\ "Discard" \in UserCalls /\ j <= nsub /\ job[j].incache
+    /\ hook = "none" /\ "Discard" \in UserCalls /\ j <= nsub /\ job[j].incache
     /\ job' = [job EXCEPT ![j].incache = FALSE]
     /\ act' = [name |-> "Discard", j |-> j]
-    /\ UNCHANGED <<pstate, nsub, pool, procs, nextpid, sem, rs, dirty, inq, outq, w, sigs,
+    /\ UNCHANGED <<hook, pstate, nsub, pool, procs, nextpid, sem, rs, dirty, inq, outq, w, sigs,
                    now, ndup, supd, scand, raised, scanning, snap>>
 
 TerminateJob(p) ==   \* Pool.terminate_job(pid): TERM + mark the process
-    /\ "TerminateJob" \in UserCalls
+    /\ hook = "none" /\ "TerminateJob" \in UserCalls
     /\ p \in PoolPids(pool) /\ ~Exited(p) /\ ~w[p].term
     /\ w[p].pc = "run"
     /\ LET i == IdxOf(pool, p) IN
@@ -152,22 +155,23 @@ TerminateJob(p) ==   \* Pool.terminate_job(pid): TERM + mark the process
     /\ sigs' = Append(sigs, <<p, "TERM">>)
     /\ w' = [w EXCEPT ![p].term = TRUE]
     /\ act' = [name |-> "TerminateJob", pid |-> p]
-    /\ UNCHANGED <<pstate, nsub, job, procs, nextpid, sem, rs, dirty, inq, outq, now, ndup,
+    /\ UNCHANGED <<hook, pstate, nsub, job, procs, nextpid, sem, rs, dirty, inq, outq, now, ndup,
                    supd, scand, raised, scanning, snap>>
 
 Close ==
-    /\ "Close" \in UserCalls /\ pstate = "RUN"
+    /\ hook = "none" /\ "Close" \in UserCalls /\ pstate = "RUN"
     /\ pstate' = "CLOSE"
     /\ sem' = <<IF sem[1] < sem[2] THEN sem[2] ELSE sem[1], sem[2]>>     \* putlock.clear()
     /\ act' = [name |-> "Close"]
-    /\ UNCHANGED <<nsub, job, pool, procs, nextpid, rs, dirty, inq, outq, w, sigs, now, ndup,
+    /\ UNCHANGED <<hook, nsub, job, pool, procs, nextpid, rs, dirty, inq, outq, w, sigs, now, ndup,
                    supd, scand, raised, scanning, snap>>
 
 Grow ==
-    /\ "Grow" \in UserCalls /\ procs < Procs + 1 /\ nextpid <= MaxPid
+    /\ "Grow" \in UserCalls /\ hook = "none" /\ procs < Procs + 1 /\ nextpid <= MaxPid
     /\ procs' = procs + 1
     /\ sem' = <<sem[1] + 1, sem[2] + 1>>
     /\ act' = [name |-> "Grow"]
+    /\ hook' = IF HookPause THEN "grow" ELSE "none"     \* on_grow(n) runs last
     /\ UNCHANGED <<pstate, nsub, job, pool, nextpid, rs, dirty, inq, outq, w, sigs, now, ndup,
                    supd, scand, raised, scanning, snap>>
 
@@ -176,7 +180,7 @@ Grow ==
 Inactive(pl) == {i \in 1..Len(pl) : (\A j \in Cached : job[j].owner # pl[i].pid)
                                      /\ (DevShrinkSame \/ ~pl[i].ctrl)}
 Shrink ==
-    /\ "Shrink" \in UserCalls /\ procs > 1 /\ Inactive(pool) # {} /\ sem[1] > 0
+    /\ "Shrink" \in UserCalls /\ hook = "none" /\ procs > 1 /\ Inactive(pool) # {} /\ sem[1] > 0
     /\ LET i == CHOOSE k \in Inactive(pool) : \A k2 \in Inactive(pool) : k <= k2
            p == pool[i].pid
        IN /\ procs' = procs - 1
@@ -186,7 +190,16 @@ Shrink ==
                           ELSE /\ sigs' = Append(sigs, <<p, "TERM">>)
                                /\ w' = [w EXCEPT ![p].term = TRUE]
     /\ act' = [name |-> "Shrink"]
+    /\ hook' = IF HookPause THEN "shrink" ELSE "none"   \* on_shrink(1) runs last
     /\ UNCHANGED <<pstate, nsub, job, nextpid, rs, dirty, inq, outq, now, ndup, supd, scand, raised, scanning, snap>>
+
+(* the user's on_grow / on_shrink hook returns: until then the resizing thread is inside
+   the call and supervision, result handling and the workers go on around it *)
+HookReturn ==
+    /\ hook # "none" /\ hook' = "none"
+    /\ act' = [name |-> "HookReturn"]
+    /\ UNCHANGED <<pstate, nsub, job, pool, procs, nextpid, sem, rs, dirty, inq, outq, w,
+                   sigs, now, ndup, supd, scand, raised, scanning, snap>>
 
 (* ------------------------------------------------------------------------- *)
 (* environment: workers                                                      *)
@@ -198,7 +211,7 @@ W_Accept(p) ==    \* take the next task from the pipe and announce acceptance
         /\ w' = [w EXCEPT ![p].pc = "run", ![p].j = j]
         /\ outq' = Append(outq, [t |-> "ACK", j |-> j, pid |-> p, time |-> now])
         /\ act' = [name |-> "W_Accept", pid |-> p, j |-> j]
-    /\ UNCHANGED <<pstate, nsub, job, pool, procs, nextpid, sem, rs, dirty, sigs, now, ndup,
+    /\ UNCHANGED <<hook, pstate, nsub, job, pool, procs, nextpid, sem, rs, dirty, sigs, now, ndup,
                    supd, scand, raised, scanning, snap>>
 
 W_Finish(p, res) ==  \* the task returns / raises: one READY; then next job or quota wait
@@ -208,7 +221,7 @@ W_Finish(p, res) ==  \* the task returns / raises: one READY; then next job or q
                           ![p].nd = nd, ![p].j = 0]
         /\ outq' = Append(outq, [t |-> "READY", j |-> w[p].j, pid |-> p, res |-> res])
     /\ act' = [name |-> "W_Finish", pid |-> p, res |-> res]
-    /\ UNCHANGED <<pstate, nsub, job, pool, procs, nextpid, sem, rs, dirty, inq, sigs, now, ndup,
+    /\ UNCHANGED <<hook, pstate, nsub, job, pool, procs, nextpid, sem, rs, dirty, inq, sigs, now, ndup,
                    supd, scand, raised, scanning, snap>>
 
 Counter(p) == IF p \in PoolPids(pool) THEN pool[IdxOf(pool, p)].cnt ELSE 0
@@ -218,7 +231,7 @@ W_QuotaExit(p) ==  \* all results consumed by the parent: exit with the recycle 
     /\ Counter(p) >= w[p].nd
     /\ w' = [w EXCEPT ![p].pc = "exited", ![p].ex = Some(EX_RECYCLE)]
     /\ act' = [name |-> "W_QuotaExit", pid |-> p]
-    /\ UNCHANGED <<pstate, nsub, job, pool, procs, nextpid, sem, rs, dirty, inq, outq, sigs, now,
+    /\ UNCHANGED <<hook, pstate, nsub, job, pool, procs, nextpid, sem, rs, dirty, inq, outq, sigs, now,
                    ndup, supd, scand, raised, scanning, snap>>
 
 W_Die(p, st) ==    \* dies while running task code or between jobs
@@ -226,14 +239,14 @@ W_Die(p, st) ==    \* dies while running task code or between jobs
     /\ st \in Statuses
     /\ w' = [w EXCEPT ![p].pc = "exited", ![p].ex = Some(st)]
     /\ act' = [name |-> "W_Die", pid |-> p, st |-> st]
-    /\ UNCHANGED <<pstate, nsub, job, pool, procs, nextpid, sem, rs, dirty, inq, outq, sigs, now,
+    /\ UNCHANGED <<hook, pstate, nsub, job, pool, procs, nextpid, sem, rs, dirty, inq, outq, sigs, now,
                    ndup, supd, scand, raised, scanning, snap>>
 
 W_TermExit(p) ==   \* honours a termination request
     /\ w[p].term /\ ~Exited(p) /\ w[p].pc # "none"
     /\ w' = [w EXCEPT ![p].pc = "exited", ![p].ex = Some(-15)]
     /\ act' = [name |-> "W_TermExit", pid |-> p]
-    /\ UNCHANGED <<pstate, nsub, job, pool, procs, nextpid, sem, rs, dirty, inq, outq, sigs, now,
+    /\ UNCHANGED <<hook, pstate, nsub, job, pool, procs, nextpid, sem, rs, dirty, inq, outq, sigs, now,
                    ndup, supd, scand, raised, scanning, snap>>
 
 DupReady ==        \* a duplicate of a result message that was already delivered once
@@ -243,7 +256,7 @@ DupReady ==        \* a duplicate of a result message that was already delivered
          /\ outq' = Append(outq, [t |-> "READY", j |-> j, pid |-> job[j].owner, res |-> res])
          /\ act' = [name |-> "DupReady", j |-> j, res |-> res]
     /\ ndup' = ndup + 1
-    /\ UNCHANGED <<pstate, nsub, job, pool, procs, nextpid, sem, rs, dirty, inq, w, sigs, now,
+    /\ UNCHANGED <<hook, pstate, nsub, job, pool, procs, nextpid, sem, rs, dirty, inq, w, sigs, now,
                    supd, scand, raised, scanning, snap>>
 
 (* ------------------------------------------------------------------------- *)
@@ -263,7 +276,7 @@ RH_Ack ==
                                        ![j].tset = job[j].tset + 1]
                ELSE UNCHANGED job
           /\ act' = [name |-> "RH_Ack", j |-> j, pid |-> m.pid]
-    /\ UNCHANGED <<pstate, nsub, pool, procs, nextpid, sem, dirty, inq, w, sigs, now, ndup,
+    /\ UNCHANGED <<hook, pstate, nsub, pool, procs, nextpid, sem, dirty, inq, w, sigs, now, ndup,
                    supd, scand, raised, scanning, snap>>
 
 Credit(pl, p) == IF p # 0 /\ p \in PoolPids(pl)
@@ -284,7 +297,7 @@ RH_Ready ==
                     /\ job' = [job EXCEPT ![j].late = job[j].late \/ ~job[j].rel]
                     /\ UNCHANGED sem
           /\ act' = [name |-> "RH_Ready", j |-> j, pid |-> m.pid, res |-> m.res]
-    /\ UNCHANGED <<pstate, nsub, procs, nextpid, rs, dirty, inq, w, sigs, now, ndup, supd, scand, raised, scanning, snap>>
+    /\ UNCHANGED <<hook, pstate, nsub, procs, nextpid, rs, dirty, inq, w, sigs, now, ndup, supd, scand, raised, scanning, snap>>
 
 (* ------------------------------------------------------------------------- *)
 (* supervision: Pool.maintain_pool()                                         *)
@@ -374,7 +387,7 @@ Maintain ==
                     /\ sem' = RelN(sem, Len(codes))
           /\ act' = [name |-> "Maintain", raised |-> st[4]]
     /\ supd' = TRUE
-    /\ UNCHANGED <<nsub, procs, dirty, inq, outq, sigs, now, ndup, scand, scanning, snap>>
+    /\ UNCHANGED <<hook, nsub, procs, dirty, inq, outq, sigs, now, ndup, scand, scanning, snap>>
 
 (* ------------------------------------------------------------------------- *)
 (* time-limit scan: one pass of TimeoutHandler.handle_timeouts                *)
@@ -419,7 +432,7 @@ Scan(lingers) ==
                      ELSE w[p]]
         /\ act' = [name |-> "Scan", lingers |-> lingers]
     /\ scand' = TRUE
-    /\ UNCHANGED <<pstate, nsub, pool, procs, nextpid, sem, rs, inq, outq, now, ndup, supd, raised, scanning, snap>>
+    /\ UNCHANGED <<hook, pstate, nsub, pool, procs, nextpid, sem, rs, inq, outq, now, ndup, supd, raised, scanning, snap>>
 
 
 (* ---- the same scan, one visit at a time (FineScan) ----------------------------------- *)
@@ -433,7 +446,7 @@ ScanBegin ==      \* copy of the cache taken; memory of soft signals pruned to i
     /\ dirty' = {j \in dirty : job[j].incache}
     /\ scand' = ((Cached = {}) \/ scand)
     /\ act' = [name |-> "ScanBegin"]
-    /\ UNCHANGED <<pstate, nsub, job, pool, procs, nextpid, sem, rs, inq, outq, w, sigs, now, ndup,
+    /\ UNCHANGED <<hook, pstate, nsub, job, pool, procs, nextpid, sem, rs, inq, outq, w, sigs, now, ndup,
                    supd, raised>>
 
 ScanVisit(linger) ==   \* the next job of the snapshot, judged by what it looks like *now*
@@ -463,7 +476,7 @@ ScanVisit(linger) ==   \* the next job of the snapshot, judged by what it looks 
           /\ snap' = Tail(snap) /\ scanning' = (Tail(snap) # <<>>)
           /\ scand' = ((Tail(snap) = <<>>) \/ scand)
           /\ act' = [name |-> "ScanVisit", j |-> j, linger |-> linger]
-    /\ UNCHANGED <<pstate, nsub, pool, procs, nextpid, sem, rs, inq, outq, now, ndup, supd, raised>>
+    /\ UNCHANGED <<hook, pstate, nsub, pool, procs, nextpid, sem, rs, inq, outq, now, ndup, supd, raised>>
 
 Tick ==
     /\ now < MaxTime
@@ -471,10 +484,11 @@ Tick ==
     /\ now' = now + 1
     /\ supd' = FALSE /\ scand' = FALSE
     /\ act' = [name |-> "Tick"]
-    /\ UNCHANGED <<pstate, nsub, job, pool, procs, nextpid, sem, rs, dirty, inq, outq, w, sigs,
+    /\ UNCHANGED <<hook, pstate, nsub, job, pool, procs, nextpid, sem, rs, dirty, inq, outq, w, sigs,
                    ndup, raised, scanning, snap>>
 
 Next ==
+    \/ HookReturn
     \/ \E lim \in JobLimits : Submit(lim)
     \/ SubmitRefused
     \/ \E j \in Jobs : Discard(j)
@@ -617,7 +631,7 @@ AckResetsBudget == [][act'.name = "RH_Ack" => rs'.R = 0]_vars
 
 (* ========================================================================= *)
 (* binding                                                                    *)
-Proj == [scanning |-> scanning, snap |-> snap, pstate |-> pstate, nsub |-> nsub, job |-> [j \in 1..nsub |-> job[j]],
+Proj == [hook |-> hook, scanning |-> scanning, snap |-> snap, pstate |-> pstate, nsub |-> nsub, job |-> [j \in 1..nsub |-> job[j]],
          pool |-> pool, procs |-> procs, sem |-> sem, rs |-> rs,
          dirty |-> dirty, inq |-> inq, outq |-> outq,
          w |-> [p \in 1..(nextpid - 1) |-> w[p]],
